@@ -25,6 +25,7 @@ inductive Op where
   | readN (n : Nat) (s e : Bound)
   | nLines (s e : Bound)
   | lastLine | len | isEmpty | range | payloadSize
+  | flush                                   -- `flush_to_disk`: asks the OS to write its buffers, changes no byte
   | page (n : Nat)
   | files
   | cut (r : Role) (len : Nat)
@@ -590,6 +591,7 @@ def step (w : World) (op : Op) : World × String :=
         | some (a, b) => s!"ok {a}..={b}"
         | none => "ok none")
   | .payloadSize => withSess w fun _ s => (w, s!"ok {s.d.p}")
+  | .flush => withSess w fun _ _ => (w, "ok")
   | .page n => withSess w fun dir s =>
     let out := apiPage dir s n
     if out == "panic" then ({ w with sess := none }, out) else (w, out)
